@@ -1,14 +1,26 @@
 /-
   Property C16 — allocation failure at any point yields a clean error or a complete value.
 
-  Theorem part (the logic that decides what is handed out when requests fail): the collection
-  builder and the duplicate check, under *every* schedule of failing requests.  That the whole
-  reader returns normally, leaks nothing and touches no dead memory under every single and
-  every from-k-on failure is decided at run time by the fault enumeration of the check
-  (monitoring, not proof) — the reader model has no allocation parameter.
+  Theorem part 1 (the logic that decides what is handed out when requests fail): the collection
+  builder and the duplicate check, under *every* schedule of failing requests.
+
+  Theorem part 2 (the whole reader): Edn.Model.ReaderA is the reader model with allocation inside
+  it — every logical allocation request of `edn_read_with_options` goes through one function and
+  a fault oracle `orc : Nat → Bool` decides which requests fail (tied to the C code by the `H`
+  correspondence stream of this check: every request of every corpus document failed alone and
+  from there on, event traces compared).  About it:
+  * `reader_without_faults_is_the_reader` — under an oracle that fails nothing the
+    allocation-aware reader returns exactly what `Edn.Model.read` returns (refinement: every
+    theorem about `read` is a theorem about the fault-free runs of `readA`);
+  * `error_without_fault_is_the_readers_error` — an error returned although no request failed is
+    the fault-free error.
+  That the code returns normally, leaks nothing and touches no dead memory under every single and
+  every from-k-on failure is, beyond the correspondence with the model, decided at run time by the
+  fault enumeration of the check (monitoring).
 -/
 import Edn.Proofs.Faults
 import Edn.Proofs.Arena
+import Edn.Proofs.AllocSim
 
 namespace Edn.Properties.C16
 open Edn.Model Edn.Spec Edn.Proofs
@@ -53,5 +65,54 @@ theorem refused_request_changes_nothing (mallocOk : Nat → Bool) (a : Arena) (s
 
 example : (match (Builder.run growHalf 8 [1, 2, 3] [false] : BuildOutcome Nat) with | .finished 3 none => true | _ => false) = true := by decide
 example : (match (Builder.run growHalf 8 (List.range 9) [true] : BuildOutcome Nat) with | .finished 9 (some (.heap, ys)) => ys == List.range 9 | _ => false) = true := by decide
+
+/-! ## The reader with allocation inside (Edn.Model.ReaderA) -/
+
+/-- **The reader without faults is the reader.**  For every oracle that fails no request (in
+    particular `fun _ => false`), every growth rule of the builders, every table of handlers that
+    request memory and every order in which `qsort` first touches the elements, the
+    allocation-aware model of `edn_read_with_options` returns the outcome (value incl. cache cells,
+    end-of-input value, or error with code and positions) and the call log of `Edn.Model.read`. -/
+theorem reader_without_faults_is_the_reader (cfg : Cfg) (opts : Opts) (orc : Nat → Bool) (hx : ∀ n, orc n = false)
+    (input : Bytes) (grow : Nat → Nat) (handlerReq : String → Bool) (sortTouch : Nat → List Nat) :
+    (readA cfg opts orc input grow handlerReq sortTouch).result = Edn.Model.read cfg opts input :=
+  Edn.Proofs.AllocSim.readA_nofault cfg opts orc hx input grow handlerReq sortTouch
+
+/-- the same inside the recursion: `edn_read_value` with a live parser arena and no failing
+    request returns the value, rest, call log or error of `readValue` -/
+theorem readValue_without_faults (x : ACtx) (hx : ∀ n, x.orc n = false) (f d : Nat) (dm : Bool) (st : St) (a : ASt)
+    (ha : a.arena = .alive) :
+    (readValueA x f d dm st a).1 = readValue x.ctx f d dm st ∧ (readValueA x f d dm st a).2.arena = .alive :=
+  Edn.Proofs.AllocSim.readValueA_nofault x hx f d dm st a ha
+
+/-- an error that is returned although no request failed is the error of the fault-free reader -/
+theorem error_without_fault_is_the_readers_error (cfg : Cfg) (opts : Opts) (orc : Nat → Bool)
+    (hx : ∀ n, orc n = false) (input : Bytes) (grow : Nat → Nat) (handlerReq : String → Bool)
+    (sortTouch : Nat → List Nat) (code : Err) (es ee : Pos)
+    (h : (readA cfg opts orc input grow handlerReq sortTouch).out = .error code es ee) :
+    (Edn.Model.read cfg opts input).out = .error code es ee :=
+  Edn.Proofs.AllocSim.readA_error_without_fault cfg opts orc hx input grow handlerReq sortTouch code es ee h
+
+/-- the outcome is a value -/
+def Outcome.isValue : Outcome → Bool
+  | .value _ => true
+  | _ => false
+
+/-- the numeric error code of an outcome (`Err.code`: 4 = OUT_OF_MEMORY) -/
+def Outcome.errCode : Outcome → Option Nat
+  | .error c _ _ => some c.code
+  | _ => none
+
+-- `[1 2 {:a "x"} #{1 2 3}]`: without a failing request a value; with request 5 (the keyword `:a`;
+-- requests 1 and 2 create the arena, 3 and 4 are the two integers) failing, OUT_OF_MEMORY
+example : Outcome.isValue (readA Cfg.core {} (fun _ => false) "[1 2 {:a \"x\"} #{1 2 3}]".toUTF8.toList).out = true := by
+  decide +kernel
+example : Outcome.isValue (Edn.Model.read Cfg.core {} "[1 2 {:a \"x\"} #{1 2 3}]".toUTF8.toList).out = true := by
+  decide +kernel
+example : Outcome.errCode (readA Cfg.core {} (fun i => i == 5) "[1 2 {:a \"x\"} #{1 2 3}]".toUTF8.toList).out
+    = some 4 := by decide +kernel
+-- … and with request 5 and every later one failing
+example : Outcome.errCode (readA Cfg.core {} (fun i => decide (5 ≤ i)) "[1 2 {:a \"x\"} #{1 2 3}]".toUTF8.toList).out
+    = some 4 := by decide +kernel
 
 end Edn.Properties.C16
